@@ -88,6 +88,7 @@ type Options struct {
 	FeesEnabled  bool
 	Quiet        bool
 	ExtraGenesis map[string]uint64               // id -> tokens (taken from faucet's share)
+	ProbeTokens  uint64                          // genesis balance of the probe contract wallet
 	PreGenesis   func(w *World)                  // after the chain object exists, before the magic block / genesis
 	PostGenesis  func(w *World, gr round.RoundI) // after genesis was added
 }
@@ -226,6 +227,7 @@ func New(opt Options) *World {
 	client.SetupEntity(store)
 	transaction.SetupEntity(store)
 	setupsc.SetupSmartContracts()
+	registerProbe()
 
 	c := chain.NewChainFromConfig()
 	chain.SetServerChain(c)
@@ -330,6 +332,9 @@ func New(opt Options) *World {
 	}
 	for _, k := range w.Sharders {
 		add(k.ID, opt.ClientTokens)
+	}
+	if opt.ProbeTokens > 0 {
+		add(ProbeAddress, opt.ProbeTokens)
 	}
 	ids := make([]string, 0, len(opt.ExtraGenesis))
 	for id := range opt.ExtraGenesis {
